@@ -135,7 +135,7 @@ CLAIMED['C16'] = {
     'text': 'Relational wiring proof: the source loops of cmd_discover and cmd_explain satisfy the same loop invariant, over the same uninterpreted terms (included sources, '
             'parse calls with the configured rules / transforms / supplemental data), as cmd_run; _check_merchant_migration (no migration) returns the configured get_all_rules '
             'call; the Unknown filter of discover is a syntactic clause. Command-level agreement (merchant, category, subcategory, rule, counts) is exercised by the labelled '
-            'bounded oracle; one recorded known finding (explain of a raw description in most_specific mode).',
+            'bounded oracle; explain_description (raw description with amount) is decided by the bounded oracle only; its three deviations found there were repaired in ed5cf4c.',
     'level_note': _BASE_NOTE + ' Callees are uninterpreted; argparse and process start-up are outside the verified text (A10).',
     'technique': 'contract-based deductive verification (relational loop invariants shared with cmd_run, z3) + bounded oracle comparing up / discover / explain on generated budgets',
 }
